@@ -82,6 +82,7 @@ fn id_at(q: &AnyQ, pos: usize) -> Option<u32> {
 
 pub fn measure(kind: Kind, pattern: Pattern, n: usize, seed: u64) -> Measured {
     ledger_reset();
+    crate::hashers::reset_instances();
     disarm_all();
     crate::hashers::set_current(crate::hashers::HasherKind::Mul);
     let mut r = Rng::new(mix(seed, n as u64));
